@@ -64,6 +64,7 @@ async fn run_lines(lines: &[String], work: &PathBuf, stats: &mut Stats) -> Vec<S
                 let r = match k {
                     "rmut" => b.op_rmut(&kv),
                     "robs" => b.op_robs(&kv),
+                    "rstored" => b.op_rstored(&kv),
                     "pobs" => b.op_pobs(&kv).await,
                     "pdump" => b.op_pdump().await,
                     "new" => b.op_new(&kv),
